@@ -68,6 +68,15 @@ impl SrtpProfile {
         }
     }
 
+    /// SRTCP authentication tag length. RFC 5764 section 4.1.2: the _32 profile
+    /// shortens only the SRTP tag; SRTCP always carries the 80-bit tag.
+    fn rtcp_tag_len(&self) -> usize {
+        match self {
+            Self::Aes128Sha1_32 => 10,
+            other => other.tag_len(),
+        }
+    }
+
     fn salt_len(&self) -> usize {
         match self {
             Self::AeadAes128Gcm => 12,
@@ -508,13 +517,13 @@ impl SrtpContext {
         // Authenticate
         let mut tag = [0u8; SHA1_LEN];
         self.auth_tag_rtcp_into(packet, &mut tag)?;
-        packet.extend_from_slice(&tag[..self._profile.tag_len()]);
+        packet.extend_from_slice(&tag[..self._profile.rtcp_tag_len()]);
 
         Ok(())
     }
 
     pub fn unprotect_rtcp(&mut self, packet: &mut Vec<u8>) -> SrtpResult<()> {
-        let tag_len = self._profile.tag_len();
+        let tag_len = self._profile.rtcp_tag_len();
         if packet.len() < tag_len + 4 {
             return Err(SrtpError::PacketTooShort);
         }
